@@ -312,8 +312,14 @@ def case_scatter(ctx, nx, frames):
     ctx.bounds.update(nx=nx, frames=frames, mask="every 0/1 mask with exactly the number of ones the data has (all counts)")
     import itertools
     for bits in itertools.product([0, 1], repeat=nx * nx):
-      for mdt in (int, bool, float):
+      for mdt, layout in ((int, "C"), (bool, "C"), (float, "C"), (int, "F"), (int, "strided")):
         mask = numpy.array(bits).reshape(nx, nx).astype(mdt)          # masks come as int, bool or float arrays
+        if layout == "F":
+            mask = numpy.asfortranarray(mask)                         # ... column-major (a transposed view, FITS/IDL data)
+        elif layout == "strided":
+            big = numpy.zeros((2 * nx, 2 * nx), dtype=mdt)            # ... or as a strided view into a larger array
+            big[::2, ::2] = mask
+            mask = big[::2, ::2]
         ns = int(mask.sum())
         data = symarr("s", (frames, 2, ns))
         with npx.symbolic(w):
@@ -323,7 +329,7 @@ def case_scatter(ctx, nx, frames):
         back = out[:, :, mask == 1]
         rest = out[:, :, mask != 1]
         goal = conj(eqs(back, data) + eqs(rest, numpy.zeros(rest.shape)))
-        ctx.prove("mask=%s (%s): read-back through the mask is the identity, other cells zero" % ("".join(map(str, bits)), numpy.dtype(mdt).name), [], goal,
+        ctx.prove("mask=%s (%s, %s layout): read-back through the mask is the identity, other cells zero" % ("".join(map(str, bits)), numpy.dtype(mdt).name, layout), [], goal,
                   replay=lambda m, mask=mask, data=data: replay_scatter(mask, numpy.asarray(m(data), dtype=float) + 0.25))
 
 
